@@ -264,7 +264,7 @@ func c02Body(c *fw.Ctx) {
 	for _, pre := range c02Prefixes {
 		enum.Raw(sigmaB, 2, func(s []byte) { core = append(core, pre+string(s)) })
 	}
-	hostMenu := []string{"\x80\x80", "\x80\x81.com", "a\xff\xfeb", "[::1", "[::1]x", "[1:2:3:4:5:6:7:8:9]", "[::1.2.3.4.5]", "1.2.3.4.5", "0x100000000", "%00", "%ff%fe", "xn--", "a..b", "...", ".", "%2e%2E", "é\x80", "\xed\xa0\x80"}
+	hostMenu := []string{"\x80\x80", "\x80\x81.com", "a\xff\xfeb", "[::1", "[::1]x", "[1:2:3:4:5:6:7:8:9]", "[1:2:3:4:5:6:7::8]", "[::1:2:3:4:5:6:7:8]", "[1:2:3:4:5:6:7::]", "[1:2:3:4:5:6:7:8::]", "[1:2:3:4:5:6::7:8]", "[::1:2:3:4:5:6:1.2.3.4]", "[1:2:3:4:5:6:7::1.2.3.4]", "[1::2::3]", "[:1]", "[1:]", "[1:2:3:4:5:6:7:8:]", "[::1.2.3.4.5]", "1.2.3.4.5", "0x100000000", "%00", "%ff%fe", "xn--", "a..b", "...", ".", "%2e%2E", "é\x80", "\xed\xa0\x80"}
 	for _, h := range hostMenu {
 		for _, sc := range []string{"http://", "foo://", "file://", "ws://u:p@"} {
 			core = append(core, sc+h, sc+h+"/p", sc+h+":80")
